@@ -24,6 +24,8 @@ def run(chk):
     geom.mesh_siblings(chk, "C12", only=["mesh.Mesh.rotate90"])
     geom.field_rotate_siblings(chk, "C12")
     d6_refusal(chk, repo)
+    from .c07 import corner_copies_hold_floats
+    corner_copies_hold_floats(chk, repo, "C12", ["region.Region.rotate90"], floor=4)
     chk.trust("np.rot90(m, k, axes=(a, b)) rotates by k quarter turns from axis a towards axis b (numpy reference)")
     chk.trust("np.dot of a 2x2 matrix with a 2-vector is the matrix-vector product")
     chk.assume("g(R+Q(p-R)) = Q f(p) numerically, k versus k mod 4, and exactness of cos(k*pi/2) are not decided")
@@ -92,8 +94,6 @@ def d1_field_sense(chk, repo):
     v1 = v.spec("self.vdims.index(self._r_dim_mapping[ax1])")
     v2 = v.spec("self.vdims.index(self._r_dim_mapping[ax2])")
     env = {"B": B, "v1": v1, "v2": v2}
-    w1 = v.spec("np.cos(k * np.pi / 2) * B[..., v1] - np.sin(k * np.pi / 2) * B[..., v2]", env=env)
-    w2 = v.spec("np.sin(k * np.pi / 2) * B[..., v1] + np.cos(k * np.pi / 2) * B[..., v2]", env=env)
     ix1 = v.spec("(..., v1)", env=env)
     ix2 = v.spec("(..., v2)", env=env)
     got = {}
@@ -104,10 +104,21 @@ def d1_field_sense(chk, repo):
             got[2] = x
         else:
             got["other"] = x
-    ok = len(sts) == 2 and 1 in got and 2 in got and v.eq(got[1], w1) and v.eq(got[2], w2)
+    ok = exact = False
+    for rnd in ("round", "np.round", "np.rint", ""):
+        e2 = dict(env, C=v.spec(f"{rnd}(np.cos(k * np.pi / 2))"), S=v.spec(f"{rnd}(np.sin(k * np.pi / 2))"))
+        w1 = v.spec("C * B[..., v1] - S * B[..., v2]", env=e2)
+        w2 = v.spec("S * B[..., v1] + C * B[..., v2]", env=e2)
+        if len(sts) == 2 and 1 in got and 2 in got and v.eq(got[1], w1) and v.eq(got[2], w2):
+            ok = True
+            exact = rnd != ""
     chk.ob("field.Field.rotate90::component-mixing", ok, "C12.D1",
            "the components mapped to ax1/ax2 (through _r_dim_mapping) must become cos*v1 - sin*v2 and sin*v1 + cos*v2 of the "
            f"rotated array's OLD components; found {[(v.show(i)[:70], v.show(x)[:200]) for i, x in sts]}", v.f, r)
+    chk.ob("field.Field.rotate90::mixing-coefficients-exact", ok and exact, "C12.D1",
+           "Q must be the EXACT quarter-turn matrix: cos(k*pi/2) and sin(k*pi/2) have to be rounded to -1, 0, 1 before they "
+           "multiply the components - the result is cast to the field's dtype (dtype=self.dtype), so 6e-17 instead of 0 "
+           "truncates integer-typed fields ((5,3,1) -> (-2,5,1))", v.f, r)
     # mixing only for vector fields
     mix_stmts = [s for s in v.stmts() if isinstance(s, ast.Assign) and isinstance(s.targets[0], ast.Subscript)
                  and isinstance(s.targets[0].value, ast.Name)]
